@@ -18,6 +18,17 @@ EmptyStore == [r \in Rev |-> NoRec]
 StoresEmpty == {EmptyStore}
 \* a release of chart cA deployed at revision 1 (ledger and cluster)
 StoresDeployed == {[EmptyStore EXCEPT ![1] = MkRec("deployed", "cA")]}
+\* ledgers that no sequence of successful operations produces (written into release storage as they are), next to a
+\* cluster that holds chart cB's objects
+OddRec(st, c) == MkRec(st, c)
+StoresOdd == {[EmptyStore EXCEPT ![1] = OddRec("deployed", "cA"), ![2] = OddRec("deployed", "cB"), ![3] = OddRec("failed", "cA")],
+              [EmptyStore EXCEPT ![1] = OddRec("deployed", "cB"), ![2] = OddRec("pending-upgrade", "cA")],
+              [EmptyStore EXCEPT ![1] = OddRec("superseded", "cA"), ![2] = OddRec("uninstalled", "cB")],
+              [EmptyStore EXCEPT ![1] = OddRec("failed", "cB")],
+              [EmptyStore EXCEPT ![1] = OddRec("deployed", "cB"), ![2] = OddRec("deployed", "cB")],
+              [EmptyStore EXCEPT ![1] = OddRec("pending-install", "cB")],
+              [EmptyStore EXCEPT ![1] = OddRec("superseded", "cA"), ![2] = OddRec("pending-rollback", "cB"), ![3] = OddRec("failed", "cB")]}
+PreOdd == {[Empty EXCEPT !["by1"] = By, !["r1"] = NewObj(ChartMan("cB")["r1"]), !["r3"] = NewObj(ChartMan("cB")["r3"])]}
 PreDeployedA == {[Empty EXCEPT !["by1"] = By, !["r1"] = NewObj(ChartMan("cA")["r1"]), !["r2"] = NewObj(ChartMan("cA")["r2"])]}
 PreOwn  == {[Empty EXCEPT !["by1"] = By, ![r] = Obj(own, "q")] :
                r \in {"r1", "r3", "r4"}, own \in {"none", "othername", "otherns", "partial", "me"}}
@@ -74,6 +85,7 @@ MenuDry == Installs({"cA", "cH"}, B, B, B, B, B) \cup CRDInstalls(B, B, B, B) \c
                  \* cQ: a template that calls lookup; only ever rendered client-only (nothing is sent, the answer is empty)
                  [U("install", "cQ") EXCEPT !.dry = TRUE, !.clientOnly = TRUE],
                  [U("install", "cQ") EXCEPT !.dry = TRUE, !.clientOnly = TRUE, !.nohooks = TRUE]}
+MenuDryOnly == {m \in MenuDry : m.dry}
 \* small menu whose operation sequences are enumerated exhaustively: every dry spelling of every operation after
 \* every short real history (incl. an uninstalled last revision)
 MenuDryEnum == Installs({"cH"}, B, F, F, F, B) \cup Upgrades({"cI"}, F, F, {0, 1}, F, F, B)
